@@ -35,17 +35,17 @@ one was found and `no-failing-input-found` otherwise (§2.4).
 |----|-------------------------------|-----|-----------------------|
 | C01 | generated models + `Fitter`; 9 | recovery runs with recorded optimiser calls | ≈ 25 s |
 | C02 | generated ℝ/Float renderings + hand spec; 31 | regeneration; Float rendering vs numpy (ulp) | ≈ 5 s |
-| C03 C06 C09 C10 | object model `Indent` (+`Rater`); 4 + 5 + 10 + 4 | history engine (random + directed histories, in-place edits, fresh-object oracle) | ≈ 15 s each |
-| C04 C05 C11 | `Residual`, `Fitter`; 12 + 11 + 12 | exact-rational correspondence with recorded θ̂ / index sets; paired fits | 3–7 s |
+| C03 C06 C09 C10 | object model `Indent` (+`Rater`), incl. the E(δ)-scan cache (`Props/C03Scan`); 9 + 5 + 10 + 4 | history engine (random + directed histories incl. `compute_emodulus_mindelta`, in-place edits, fresh-object oracle) | ≈ 30 s each |
+| C04 C05 C11 | `Residual`, `Fitter` (C05 also audits `c05_scan_sample_count` of the object model); 12 + 12 + 12 | exact-rational correspondence with recorded θ̂ / index sets; paired fits | 3–7 s |
 | C07 | `Preproc`; 21 | step-by-step exact-rational correspondence | ≈ 20 s |
 | C08 | `Poc`; 17 | exact-rational correspondence + recorded optimiser inputs | ≈ 60 s |
 | C12 | `Hash`; 16 | byte-exact pre-image correspondence | ≈ 11 s |
-| C13 C18 | `Registry`, generated attribute tables; 7 + 12 | mutant modules, call sequences | 3–4 s |
+| C13 C18 | `Residual` wrapper + regenerated model functions (`Props/C13`, `Props/C13Shape`), `Registry`, generated attribute tables; 30 + 12 | regeneration; harness models (order-sensitive, retained results); mutant modules, call sequences | 3–4 s |
 | C14 | `Order` + generated requirement table; 14 (`decide +kernel` over all selections) | exhaustive correspondence | ≈ 6 s |
 | C15 | `TrainingSet`; 9 | real training-set directories at exact rationals | ≈ 5 s |
-| C16 | `Container`; 10 | h5 dumps + fault injection at every write | ≈ 55 s |
+| C16 | `Container`; 11 | h5 dumps + fault injection at every write | ≈ 55 s |
 | C17 | `Features`; 26 | stub datasets at exact rationals; names exhaustively | ≈ 10 s |
-| C19 | `Profile` + generated defaults; 11 | files + scripted input | ≈ 14 s |
+| C19 | `Profile`, `Legacy` (the key=value parser) + generated defaults; 11 + 12 | files + scripted input; every generated legacy file parsed by both | ≈ 10 s |
 | C20 | `Loading`; 10 | recorded reader progress; real maps | ≈ 10 s |
 
 ### 9.2 Genuine defects found and repaired in `/repo` (one `fix:` commit each; unedited 176 tests pass)
@@ -54,7 +54,7 @@ Each line is the entry of `known_findings.json` (`fixed`), which names the commi
 input / history.  A fixed entry suppresses nothing: the check passes on the repaired tree and
 reports the violation again if it returns (verified for the fixes of this round by reverse-applying
 the commit and running the check: C07 dd322c8, C08 269f194 and 13aa2c2 are reported with a
-concrete replay).
+concrete replay; C14 cbd93cb likewise).
 
 ''' + "\n".join("* " + f[len("fixed: "):] for f in fixed) + r'''
 
@@ -133,16 +133,22 @@ corrected with `gcf_k` turned out to violate C04 and C11 once the generator cove
 
 ### 9.5 Seeded changes (independent sub-agents, property text + scratch worktree only)
 
-Ninety-eight changes are kept under `seeded/<id>/` (`patch.diff`, `demo.py`, `meta.json`; each confirmed by
-me in a scratch worktree: demo passes on HEAD, fails with the change, 176 tests pass with it): forty
+One hundred and twenty-two changes are kept under `seeded/<id>/` (`patch.diff`, `demo.py`, `meta.json`; each
+confirmed by me in a scratch worktree: demo passes on HEAD, fails with the change, 176 tests pass with it): forty
 from the first round (two per property), ten from a second round of eight agents, seventeen from a third round
-of twelve agents, and thirty-one from a fourth round of twenty agents that were asked to avoid the most obvious
+of twelve agents, thirty-one from a fourth round of twenty agents that were asked to avoid the most obvious
 slips (interactions between functions, fallback branches, caches, argument defaults, unusual option
-combinations); twenty-two further submissions duplicated earlier changes and were not kept.  C04c, C11a, C11b
-and C11c were re-expressed on the tree in which the contact-point limits are corrected with `gcf_k`, and
-re-confirmed.
+combinations), and twenty-six from a fifth round of twenty agents that were pointed at state surviving across
+calls / objects / processes, numerical edge cases, error paths followed by a retry, rarely used entry points and
+effects that only show in a later operation; thirty-six further submissions duplicated earlier changes and were
+not kept.  C04c, C11a, C11b and C11c were re-expressed on the tree in which the contact-point limits are corrected
+with `gcf_k`, C10g on the tree in which `compute_poc` converts its input to floating point, and re-confirmed.
+Two earlier seeds were retired: C08f (in-place normalisation that failed for integer arrays) is harmless since
+`compute_poc` converts its input to floating point (ed7126e; its demonstration passes), and C14d (`preproc.apply` sorted the list returned by `available()` in place) only
+broke the property because `available()` handed out its cached list; after the repair cbd93cb the change is
+harmless (its demonstration passes).  Neither is counted any more.
 `tools/run_seeds.py` applies each to `/repo`, runs the quick check of its property, undoes it and
-writes `seeded/RESULTS.json`.  All ninety-eight are reported by `./check <property> --tier quick` with a
+writes `seeded/RESULTS.json`.  All of them are reported by `./check <property> --tier quick` with a
 concrete failing input (none only as `no-failing-input-found`).
 
 | seed | change | caught by |
@@ -188,6 +194,29 @@ Checks that had to be strengthened because a seed was first missed or reported o
   in the group – C20e).  A side remark of one agent (shared mutable `FP_DEFAULT` objects in `fit_properties`)
   was reproduced, repaired (773cbd2) and is now probed by `./check C10`.
 
+* fifth round (14 of 26 were first missed, 6 more had no failing input): C01 (the fitter class as an entry
+  point with keyword arguments in any order – C01f; a refit whose guesses differ only in their limits – C01g),
+  C02 (stiff substrates – moduli up to 2·10¹¹ Pa are inside the bounds, the mutated Clifford formula loses digits
+  there – C02g), C03/C05 (`compute_emodulus_mindelta()` as an operation of the histories; the visible E(δ) scan
+  is compared with the scan of a fresh copy – C03e, C05g), C04 (force-map style batches: equal lengths, equal
+  fixed contact point, different abscissae – C04e), C05 (a single-precision abscissa column with interval bounds
+  within a float32 rounding of a sample – C05f), C07 (indentations of a few nanometres – C07f; tip-sample
+  separation after another step wrote the height column – C07g), C10 (every array inside returned details is
+  overwritten, columns and caller arrays must not change – C10g; grid search with only `brute_step` edited –
+  C10f), C11 (one-sided contact-point limits; an unfittable attempt followed by a call that reuses the stored
+  guess – C11f/g), C12 (the plateau-search flag as numpy boolean or 0/1 – C12f), C13 (a user model that hands
+  out an array it keeps – C13e), C14 (lists returned by `autosort` / `available` edited by the caller; a rejected
+  request repeated on the same curve through `apply_preprocessing` and `fit_model` – C14f/g), C16 (the same fit
+  reached with other settings stored again: only the user fields may change; integer then fractional ratings –
+  C16g/h), C17 (`compute_features` against the feature methods on the current data after an in-place change;
+  consecutive datasets – C17e), C18 (a faulty module carrying the key of a registered model – C18e), C19
+  (expected defaults snapshotted before any profile operation instead of asked from the library – C19g; legacy
+  values containing `=`, modelled in Lean – C19h), C20 (curves long enough for non-trivial ratings, rated with
+  non-default settings – C20f: all ratings were 0 before, the rating map was only trivially checked).
+  Strengthening C14 for C14f exposed that the unchanged `available()` itself handed out its cached list (repaired,
+  cbd93cb); the thorough tier of C08 (element-type stream added in the fourth round) found the integer-input
+  defect ed7126e.
+
 ### 9.6 Observations that are not findings
 
 `optimal_fit_num_samples ≤ 6` makes scipy's `filtfilt` raise; `preproc.apply(options=None)` raises
@@ -207,7 +236,7 @@ equal to the default's, replaces the user's `range_x` by the default list (model
   of only “what the exit tests imply”.
 * C08 models the gradient estimator concretely (moving average with reflect boundary) instead of an
   abstract operator, and the optimiser as a parameter of `fitBased`.
-* C17 models 14 of 15 features; Gaussian weights are handed to the driver as data rather than
+* C17 models all 15 features; Gaussian weights are handed to the driver as data rather than
   recording filter outputs.
 '''
 s=s.rstrip("\n")+sec
